@@ -210,6 +210,17 @@ func genBuild(r *rand.Rand, n int, tier string, out *bufio.Writer) {
 				o.thr = 1
 			}
 		}
+		if r.Intn(60) == 0 && g.rt != 32 {
+			// memory part = one or two 8 KiB read chunks exactly, the rest on disk
+			o.thr = pick(r, []int{8192, 16384})
+			g.body = append(g.body, genData(r, 300)...)
+			g.body = append(g.body, bytes.Repeat([]byte("0123456789abcdef"), o.thr/16)...)
+			for i := range g.fields {
+				if strings.EqualFold(g.fields[i][0], "Content-Length") {
+					g.fields[i][1] = strconv.Itoa(len(g.body))
+				}
+			}
+		}
 		fmt.Fprintln(out, fmtBuildCase(o, g, splitFeeds(r, g.body)))
 	}
 }
